@@ -29,7 +29,7 @@ if only and os.path.exists("/verif/seeded/SWEEP.md"):
     # partial re-run: keep the other rows of the previous sweep
     prev = {}
     for l in open("/verif/seeded/SWEEP.md"):
-        p = [x.strip() for x in l.strip().strip("|").split("|")]
+        p = [x.strip() for x in l.strip().strip("|").split("|", 2)]
         if len(p) == 3 and p[0] not in ("id", "---"):
             prev[p[0]] = (p[0], p[1], p[2])
     for r in rows:
